@@ -1,0 +1,227 @@
+// Verification hooks (compiled only with `--cfg slawlor_ractor_verif`).
+//
+// Lets an external differential-testing harness build a real `NodeSessionState`
+// from plain data (authentication state kind, advertised pids), run the real
+// `NodeSession::handle` on a received network message and read the resulting
+// state back as plain data. No logic lives here.
+
+//! Verification hooks for the node session's message handler (only with `--cfg slawlor_ractor_verif`).
+
+use std::collections::{HashMap, HashSet};
+use std::net::SocketAddr;
+use std::sync::{Arc, Mutex};
+use std::time::Instant;
+
+use ractor::{Actor, ActorCell, ActorProcessingErr, ActorRef};
+
+use super::{
+    auth, auth_protocol, AuthenticationState, NodeSession, NodeSessionState, PongWarnings,
+    ReadyState, SessionMessage,
+};
+use crate::node::{NodeConnectionMode, NodeSessionMessage};
+use crate::protocol::NetworkMessage;
+
+/// Frames the session asked its TCP actor to write.
+#[derive(Clone, Debug, Default)]
+struct SentFrames(Arc<Mutex<Vec<NetworkMessage>>>);
+
+/// Stands in for the `net::Session` actor: records `SessionMessage::Send` frames.
+#[derive(Debug)]
+struct FrameSink(SentFrames);
+
+#[cfg_attr(feature = "async-trait", ractor::async_trait)]
+impl Actor for FrameSink {
+    type Msg = SessionMessage;
+    type State = ();
+    type Arguments = ();
+    async fn pre_start(
+        &self,
+        _: ActorRef<Self::Msg>,
+        _: (),
+    ) -> Result<Self::State, ActorProcessingErr> {
+        Ok(())
+    }
+    async fn handle(
+        &self,
+        _: ActorRef<Self::Msg>,
+        message: Self::Msg,
+        _: &mut Self::State,
+    ) -> Result<(), ActorProcessingErr> {
+        if let SessionMessage::Send(frame) = message {
+            self.0 .0.lock().unwrap().push(frame);
+        }
+        Ok(())
+    }
+}
+
+/// Authentication state kinds a [VerifSession] can be created in.
+#[derive(Debug, Clone, Copy, PartialEq, Eq)]
+pub enum AuthKind {
+    /// `AsServer(WaitingOnPeerName)`
+    ServerInit,
+    /// `AsServer(WaitingOnClientChallengeReply(challenge, digest(cookie, challenge)))`
+    ServerChallenged(u32),
+    /// `AsServer(Ok(_))`
+    ServerOk,
+    /// `AsServer(Close)`
+    ServerClose,
+    /// `AsClient(WaitingForServerStatus)`
+    ClientInit,
+    /// `AsClient(Ok)`
+    ClientOk,
+    /// `AsClient(Close)`
+    ClientClose,
+}
+
+/// A real `NodeSession` handler object with a real `NodeSessionState`, driven directly.
+#[allow(missing_debug_implementations)]
+pub struct VerifSession {
+    session: NodeSession,
+    state: NodeSessionState,
+    myself: ActorRef<NodeSessionMessage>,
+    sent: SentFrames,
+    sink: ActorRef<SessionMessage>,
+}
+
+impl VerifSession {
+    /// Build the handler and its state. `node_server` must be an actor whose message type is
+    /// `NodeServerMessage`, `myself` one whose message type is `NodeSessionMessage`. The TCP actor is
+    /// replaced by a recorder of the frames the session sends.
+    #[allow(clippy::too_many_arguments)]
+    pub async fn new(
+        cookie: &str,
+        this_name: &str,
+        this_connection_string: &str,
+        node_server: ActorCell,
+        myself: ActorCell,
+        kind: AuthKind,
+        peer: Option<(&str, &str)>,
+        advertised: &[u64],
+    ) -> Self {
+        let sent = SentFrames::default();
+        let (sink, _) = Actor::spawn(None, FrameSink(sent.clone()), ())
+            .await
+            .expect("frame sink");
+        let is_server = matches!(
+            kind,
+            AuthKind::ServerInit
+                | AuthKind::ServerChallenged(_)
+                | AuthKind::ServerOk
+                | AuthKind::ServerClose
+        );
+        let session = NodeSession {
+            node_id: 1,
+            is_server,
+            cookie: cookie.to_string(),
+            node_server: node_server.into(),
+            this_node_name: auth_protocol::NameMessage {
+                name: this_name.to_string(),
+                flags: None,
+                connection_string: this_connection_string.to_string(),
+                connection_id: 0,
+            },
+            connection_mode: NodeConnectionMode::Isolated,
+            max_inbound_frame_size: super::super::DEFAULT_MAX_INBOUND_FRAME_SIZE,
+            connection_id: 0,
+        };
+        let auth = match kind {
+            AuthKind::ServerInit => {
+                AuthenticationState::AsServer(auth::ServerAuthenticationProcess::init())
+            }
+            AuthKind::ServerChallenged(c) => AuthenticationState::AsServer(
+                auth::ServerAuthenticationProcess::WaitingOnClientChallengeReply(
+                    c,
+                    crate::hash::challenge_digest(cookie, c),
+                ),
+            ),
+            AuthKind::ServerOk => AuthenticationState::AsServer(
+                auth::ServerAuthenticationProcess::Ok([0u8; crate::hash::DIGEST_BYTES]),
+            ),
+            AuthKind::ServerClose => {
+                AuthenticationState::AsServer(auth::ServerAuthenticationProcess::Close)
+            }
+            AuthKind::ClientInit => {
+                AuthenticationState::AsClient(auth::ClientAuthenticationProcess::init())
+            }
+            AuthKind::ClientOk => {
+                AuthenticationState::AsClient(auth::ClientAuthenticationProcess::Ok)
+            }
+            AuthKind::ClientClose => {
+                AuthenticationState::AsClient(auth::ClientAuthenticationProcess::Close)
+            }
+        };
+        let unspecified = SocketAddr::from(([0, 0, 0, 0], 0));
+        let state = NodeSessionState {
+            tcp: Some(sink.clone()),
+            ping_task: None,
+            peer_addr: unspecified,
+            local_addr: unspecified,
+            epoch: Instant::now(),
+            pong_warnings: PongWarnings::default(),
+            name: peer.map(|(n, cs)| auth_protocol::NameMessage {
+                name: n.to_string(),
+                flags: None,
+                connection_string: cs.to_string(),
+                connection_id: 0,
+            }),
+            connection_id: 0,
+            auth,
+            ready: ReadyState::Open,
+            remote_actors: HashMap::new(),
+            advertised_local_pids: advertised.iter().copied().collect::<HashSet<u64>>(),
+        };
+        Self {
+            session,
+            state,
+            myself: myself.into(),
+            sent,
+            sink,
+        }
+    }
+
+    /// Frames sent so far (drained).
+    pub fn take_sent(&self) -> Vec<NetworkMessage> {
+        std::mem::take(&mut *self.sent.0.lock().unwrap())
+    }
+
+    /// Run the real `Actor::handle` on `MessageReceived(message)`.
+    pub async fn receive(&mut self, message: NetworkMessage) -> bool {
+        self.session
+            .handle(
+                self.myself.clone(),
+                NodeSessionMessage::MessageReceived(message),
+                &mut self.state,
+            )
+            .await
+            .is_ok()
+    }
+
+    /// 0 = neither, 1 = Ok, 2 = Close
+    pub fn auth_kind(&self) -> u8 {
+        if self.state.auth.is_ok() {
+            1
+        } else if self.state.auth.is_close() {
+            2
+        } else {
+            0
+        }
+    }
+
+    /// `advertised_local_pids`
+    pub fn advertised(&self) -> Vec<u64> {
+        self.state.advertised_local_pids.iter().copied().collect()
+    }
+
+    /// keys of `remote_actors`
+    pub fn remote_pids(&self) -> Vec<u64> {
+        self.state.remote_actors.keys().copied().collect()
+    }
+
+    /// Stop the remote-actor proxies created so far and the frame recorder.
+    pub fn shutdown(&mut self) {
+        for (_, actor) in self.state.remote_actors.drain() {
+            actor.stop(None);
+        }
+        self.sink.stop(None);
+    }
+}
